@@ -19,6 +19,7 @@
 #include <zlib.h>
 #include <sys/prctl.h>
 #include <elf.h>
+#include <valgrind/valgrind.h>
 #include <sys/syscall.h>
 #include <link.h>
 #include <sys/time.h>
@@ -77,7 +78,13 @@ static std::ostream g_null(&g_nullbuf);
 // under a wall-clock alarm.  The stage the sequence is in is published in shared memory.
 // ---------------------------------------------------------------------------------------------------
 static volatile int* g_stage = nullptr;     // MAP_SHARED, written by the case process, read by the worker
-static void stage(int st) { if(g_stage) *g_stage = st; set_sub(st); }
+static bool g_on_valgrind = false;
+static void stage(int st)
+{
+   if(g_stage) *g_stage = st;
+   set_sub(st);
+   if(g_on_valgrind) VALGRIND_PRINTF("VGSTAGE %d\n", st);
+}
 static void arm_cpu(double sec)
 {
    struct itimerval it;
@@ -323,14 +330,16 @@ static Feat features(const Case& c, const std::string& d)
          while(j < d.size() && d[j] == '0') ++j;
          if(j >= d.size() || !isdigit((unsigned char)d[j])) f.zeroDen = true;
       }
-      // digit or dot, 'e', optional sign, at least four digits: a decimal exponent of 1000 or more
+      // digit or dot, 'e', optional '+', digits with a value above 308: the literal overflows a double (pow(10, 309) == inf)
       if((d[i + 1] == 'e' || d[i + 1] == 'E') && (isdigit((unsigned char)d[i]) || d[i] == '.'))
       {
          size_t j = i + 2;
-         if(j < d.size() && (d[j] == '+' || d[j] == '-')) ++j;
+         if(j < d.size() && d[j] == '+') ++j;
          size_t k = j;
+         while(k < d.size() && d[k] == '0') ++k;
+         size_t k0 = k;
          while(k < d.size() && isdigit((unsigned char)d[k])) ++k;
-         if(k - j >= 4) f.hugeExp = true;
+         if(k - k0 > 3 || (k - k0 == 3 && atoi(d.substr(k0, 3).c_str()) > 308)) f.hugeExp = true;
       }
    }
    return f;
@@ -349,7 +358,7 @@ static std::string suffix_of(const Case& c, const Feat& f, int stage)
    if(!strcmp(f.reader, "lp") && f.lineOver8191) s += "+line>8191";
    if((!strcmp(f.reader, "mps") || !strcmp(f.reader, "bas")) && f.noEndata) s += "+eof-before-ENDATA";
    if(c.mode && f.zeroDen && (c.fmt == LP || c.fmt == MPS)) s += "+zero-denominator";
-   if(f.hugeExp && c.fmt != BAS) s += "+exponent>=1000";
+   if(f.hugeExp && c.fmt != BAS) s += "+exponent>308";
    s += std::string("/stage=") + STAGE[stage < 9 ? stage : 0];
    return s;
 }
@@ -512,8 +521,8 @@ static void run_core(const Case& c, const Feat& ft, const char* path, const char
    // ---- the read under test ------------------------------------------------------------------------
    stage(ST_READ);
    {
-      paint_stack(fill);
-      arm_cpu(c.cpu);
+      if(fill >= 0) paint_stack(fill);      // not under memcheck, which tracks definedness itself
+      arm_cpu(g_on_valgrind ? c.cpu * 200 : c.cpu);
       int r = guarded(o, ST_READ, [&]()
       {
          if(c.fmt == SET) ok = s->loadSettingsFile(path);
@@ -1146,6 +1155,151 @@ static std::string slurp(const std::string& p)
 }
 static double cpu_for(size_t bytes) { return 0.3 + 6.0 * (double)bytes / 1e6; }
 
+// ---------------------------------------------------------------------------------------------------
+// memcheck pass (uninitialised reads, which the sanitizer build does not see): the plain build of this harness executes a
+// list of cases under valgrind; markers printed into valgrind's log attribute every report to a case and a stage
+// ---------------------------------------------------------------------------------------------------
+static void prepare_input(const Case& c, Feat& ft)
+{
+   std::string d = c.content();
+   ft = features(c, d);
+   std::string bytes = d;
+   if(c.gz || c.gztrunc >= 0 || c.gzsub.first >= 0)
+   {
+      bytes = gzip_bytes(d);
+      if(c.gztrunc >= 0 && (size_t)c.gztrunc < bytes.size()) bytes.resize(c.gztrunc);
+      if(c.gzsub.first >= 0 && (size_t)c.gzsub.first < bytes.size()) bytes[c.gzsub.first] = (char)c.gzsub.second;
+   }
+   write_file(g_inpath, bytes);
+}
+static int vg_batch_main(const Args& args)
+{
+   g_on_valgrind = RUNNING_ON_VALGRIND != 0;
+   ensure_paths(args.outdir);
+   signal(SIGVTALRM, SIG_DFL);
+   signal(SIGALRM, SIG_DFL);
+   std::ifstream in(args.get("vgbatch"));
+   int start = atoi(args.get("vgstart", "0").c_str());
+   std::string line;
+   int n = 0;
+   while(std::getline(in, line))
+   {
+      if(n++ < start) continue;
+      Case c = Case::parse(line);
+      Feat ft;
+      prepare_input(c, ft);
+      VALGRIND_PRINTF("VGCASE %d\n", n - 1);
+      alarm(600);
+      Outcome o;
+      run_core(c, ft, g_inpath.c_str(), g_validLP.c_str(), g_validMPS.c_str(), -1, o);
+      alarm(0);
+   }
+   VALGRIND_PRINTF("VGDONE\n");
+   return 0;
+}
+
+// may this case be executed in-process without a watchdog?  (input classes of the open defects that crash or never return)
+static bool vg_safe(const Case& c, const Feat& ft)
+{
+   bool mpsish = !strcmp(ft.reader, "mps") || !strcmp(ft.reader, "bas");
+   if(mpsish && ft.noEndata) return false;
+   if(!strcmp(ft.reader, "lp") && ft.lineOver8191) return false;
+   if(c.mode && (ft.zeroDen || ft.hugeExp)) return false;
+   if(ft.hugeExp && c.fmt != BAS) return false;
+   return true;
+}
+
+static std::string g_plain_exe;
+static uint64_t vg_run_batch(const std::vector<Case>& cases, uint64_t b, Ctx& ctx, const std::string& outdir)
+{
+   ensure_paths(outdir);
+   std::string list = outdir + "/vg-" + std::to_string(b) + ".list", log = outdir + "/vg-" + std::to_string(b) + ".log";
+   std::vector<Feat> fts(cases.size());
+   {
+      std::ofstream lf(list);
+      for(size_t i = 0; i < cases.size(); ++i) { std::string d = cases[i].content(); fts[i] = features(cases[i], d); lf << cases[i].str() << "\n"; }
+   }
+   size_t start = 0;
+   int restarts = 0;
+   while(start < cases.size() && restarts < 50)
+   {
+      std::string sub = outdir + "/vgw-" + std::to_string(b);
+      mkdir(sub.c_str(), 0755);
+      std::string cmd = "valgrind -q --error-limit=no --num-callers=12 --log-file=" + log + " " + g_plain_exe + " --prop C13 --vgbatch " + list + " --vgstart " + std::to_string(start)
+                        + " --out " + sub + " > /dev/null 2>&1";
+      int rc = system(cmd.c_str());
+      (void)rc;
+      // parse the log
+      std::ifstream lg(log);
+      std::string line;
+      long cur = -1;
+      int stg = ST_SETUP;
+      bool done = false;
+      std::string kind;
+      std::vector<std::string> frames;
+      auto flush = [&]()
+      {
+         if(kind.empty()) return;
+         std::string site;
+         for(auto& f : frames) if(f.find("soplex::") != std::string::npos || f.find("zstr::") != std::string::npos) { site = f; break; }
+         if(site.empty() && !frames.empty()) site = frames[0];
+         std::string slug;
+         for(char ch : kind) slug += isalnum((unsigned char)ch) ? (char)tolower(ch) : '-';
+         while(slug.find("--") != std::string::npos) slug.erase(slug.find("--"), 1);
+         while(!slug.empty() && slug.back() == '-') slug.pop_back();
+         if(cur >= 0 && (size_t)cur < cases.size())
+         {
+            std::string detail = kind + " at";
+            for(size_t i = 0; i < frames.size() && i < 6; ++i) detail += " " + short_fn(frames[i]) + " <-";
+            ctx.violation("memcheck:" + slug + ":" + short_fn(site) + suffix_of(cases[cur], fts[cur], stg), cases[cur].str(), detail);
+            ctx.count("memcheck.reports");
+         }
+         kind.clear();
+         frames.clear();
+      };
+      while(std::getline(lg, line))
+      {
+         size_t p = line.find("VGCASE ");
+         if(p != std::string::npos) { flush(); cur = atol(line.c_str() + p + 7); ctx.count("memcheck.cases_executed"); continue; }
+         p = line.find("VGSTAGE ");
+         if(p != std::string::npos) { flush(); stg = atoi(line.c_str() + p + 8); continue; }
+         if(line.find("VGDONE") != std::string::npos) { flush(); done = true; continue; }
+         if(line.compare(0, 2, "==") != 0) continue;
+         size_t q = line.find("== ");
+         if(q == std::string::npos) { flush(); continue; }
+         std::string t = line.substr(q + 3);
+         if(t.empty()) { flush(); continue; }
+         if(t.compare(0, 3, "   ") == 0)
+         {
+            // "   at 0x...: function (in ...)" / "   by 0x...: function (...)"
+            size_t c2 = t.find(": ");
+            if(!kind.empty() && c2 != std::string::npos && (t.find("at 0x") != std::string::npos || t.find("by 0x") != std::string::npos))
+            {
+               std::string fn = t.substr(c2 + 2);
+               size_t e = fn.rfind(" (");
+               if(e != std::string::npos) fn = fn.substr(0, e);
+               frames.push_back(fn);
+            }
+            continue;
+         }
+         if(t[0] == ' ') continue;                      // auxiliary lines ("  Address ... is ...")
+         flush();
+         if(t.compare(0, 19, "Process terminating") == 0 || t.compare(0, 6, "Access") == 0 || t.compare(0, 2, "If") == 0 || t.compare(0, 3, "The") == 0
+               || t.compare(0, 5, "Stack") == 0 || t.compare(0, 5, "Block") == 0 || t.compare(0, 4, "  at") == 0) continue;
+         kind = t;
+      }
+      flush();
+      if(done) break;
+      // the process died in case `cur` (crash or limit under memcheck): the sanitizer phases judge such cases; go on behind it
+      ctx.count("memcheck.process_died_in_a_case");
+      start = (cur < (long)start ? start : (size_t)cur) + 1;
+      restarts++;
+   }
+   unlink(list.c_str());
+   unlink(log.c_str());
+   return 0;
+}
+
 int main(int argc, char** argv)
 {
    Args args = parse_args(argc, argv);
@@ -1160,6 +1314,7 @@ int main(int argc, char** argv)
    std::cerr.rdbuf(&g_nullbuf);   // the readers print syntax errors straight to std::cerr; sanitizers write to fd 2 directly
    write_file(args.outdir + "/valid.lp", V_LP);
    write_file(args.outdir + "/valid.mps", V_MPS);
+   if(!args.get("vgbatch").empty()) return vg_batch_main(args);
    if(!args.replay.empty())
    {
       std::ifstream in(args.replay);
@@ -1285,7 +1440,7 @@ int main(int argc, char** argv)
          uint64_t cx = idx % nctx; idx /= nctx;
          bool rest = cx < MPSCTX.size();
          c.data = render_fields(T_MPS, MPSCTX[rest ? cx : 0], rest, seq_at(idx, A, kmps));
-         if(!rest) c.cpu = 0.5;
+         if(!rest) c.cpu = 0.3;
          return c;
       };
       fams.push_back(f);
@@ -1304,7 +1459,7 @@ int main(int argc, char** argv)
          uint64_t cx = idx % nctx; idx /= nctx;
          bool rest = cx < MPSCTX.size();
          c.data = render_fields(T_MPS, MPSCTX[rest ? cx : 0], rest, seq_at(idx, A, k1));
-         if(!rest) c.cpu = 0.5;
+         if(!rest) c.cpu = 0.3;
          return c;
       };
       fams.push_back(d);
@@ -1330,22 +1485,23 @@ int main(int argc, char** argv)
    }
    {
       // basis files: field sequences and whole-line sequences, with and without name sets, before and after a solve
-      uint64_t A = T_BAS.size(), nctx = BASCTX.size() * 2;
+      uint64_t A = T_BAS.size(), nctx = BASCTX.size() + 1;   // every context with the rest of the file; the start also with nothing following
       for(int pre = 0; pre < 2; ++pre)
       {
          int kk = pre ? 2 : kbas;
          uint64_t S = nseq(A, kk);
          Family f;
-         f.name = "BAS fields k<=" + std::to_string(kk) + " x 6 contexts x {name sets, default names} x 2 modes, LP " + (pre ? "solved before" : "loaded");
+         f.name = "BAS fields k<=" + std::to_string(kk) + " x 4 contexts x {name sets, default names} x 2 modes, LP " + (pre ? "solved before" : "loaded");
          f.N = S * nctx * 2 * 2;
          f.gen = [ = ](uint64_t idx)
          {
             Case c;
-            c.fmt = BAS; c.cpu = 0.5; c.pre = pre;
+            c.fmt = BAS; c.cpu = 0.3; c.pre = pre;
             c.mode = idx % 2; idx /= 2;
             c.names = idx % 2; idx /= 2;
             uint64_t cx = idx % nctx; idx /= nctx;
-            c.data = render_fields(T_BAS, BASCTX[cx / 2], cx % 2 == 0, seq_at(idx, A, kk));
+            bool rest = cx < BASCTX.size();
+            c.data = render_fields(T_BAS, BASCTX[rest ? cx : 0], rest, seq_at(idx, A, kk));
             return c;
          };
          fams.push_back(f);
@@ -1358,7 +1514,7 @@ int main(int argc, char** argv)
       g.gen = [ = ](uint64_t idx)
       {
          Case c;
-         c.fmt = BAS; c.cpu = 0.5;
+         c.fmt = BAS; c.cpu = 0.3;
          c.mode = idx % 2; idx /= 2;
          if(combos == 4) { c.names = idx % 2; idx /= 2; c.pre = idx % 2; idx /= 2; }
          c.data = "NAME          V\n";
@@ -1375,7 +1531,7 @@ int main(int argc, char** argv)
       h2.gen = [ = ](uint64_t idx)
       {
          Case c;
-         c.fmt = BAS; c.cpu = 0.5;
+         c.fmt = BAS; c.cpu = 0.3;
          c.mode = idx % 2; idx /= 2;
          c.pre = idx % 2; idx /= 2;
          c.data = "NAME          V\n";
@@ -1729,7 +1885,95 @@ int main(int argc, char** argv)
          return suffix_of(cs, features(cs, d), (int)sub);
       });
    }
-   rep.evaluations = rep.all.counters["reader_runs"];
+   // ---- memcheck pass over the short token sequences, the seeds and their truncations -----------------------
+   if(only.empty() || std::string("memcheck").find(only) != std::string::npos || only == "memcheck")
+   {
+      int kv = atoi(args.get("kvg", thorough ? "2" : "1").c_str());
+      std::vector<Family> vf;
+      {
+         uint64_t A = T_LP.size(), nctx = LPCTX.size() * 2 - 1;
+         Family f;
+         f.N = nseq(A, kv) * nctx * 2;
+         f.gen = [ = ](uint64_t idx) { Case c; c.fmt = LP; c.cpu = TOKCPU; c.mode = idx % 2; idx /= 2; uint64_t cx = idx % nctx; idx /= nctx; c.data = render_lp(LPCTX[cx / 2], cx % 2 == 0, seq_at(idx, A, kv)); return c; };
+         vf.push_back(f);
+      }
+      {
+         uint64_t A = T_MPS.size(), nctx = MPSCTX.size() + 1;
+         Family f;
+         f.N = nseq(A, kv) * nctx * 2;
+         f.gen = [ = ](uint64_t idx) { Case c; c.fmt = MPS; c.cpu = TOKCPU; c.mode = idx % 2; idx /= 2; uint64_t cx = idx % nctx; idx /= nctx; bool rest = cx < MPSCTX.size(); c.data = render_fields(T_MPS, MPSCTX[rest ? cx : 0], rest, seq_at(idx, A, kv)); return c; };
+         vf.push_back(f);
+      }
+      {
+         uint64_t A = T_BAS.size(), nctx = BASCTX.size() + 1;
+         Family f;
+         f.N = nseq(A, kv) * nctx * 2 * 2;
+         f.gen = [ = ](uint64_t idx) { Case c; c.fmt = BAS; c.cpu = 0.3; c.mode = idx % 2; idx /= 2; c.names = idx % 2; idx /= 2; uint64_t cx = idx % nctx; idx /= nctx; bool rest = cx < BASCTX.size(); c.data = render_fields(T_BAS, BASCTX[rest ? cx : 0], rest, seq_at(idx, A, kv)); return c; };
+         vf.push_back(f);
+      }
+      {
+         uint64_t A = T_SETFRAG.size();
+         int ks = kv + 1;
+         Family f;
+         f.N = nseq(A, ks);
+         f.gen = [ = ](uint64_t idx) { Case c; c.fmt = SET; c.cpu = TOKCPU; for(int t : seq_at(idx, A, ks)) c.data += T_SETFRAG[t].text; return c; };
+         vf.push_back(f);
+         uint64_t NLs = SET_LINES.size();
+         Family g;
+         g.N = nseq(NLs, kv);
+         g.gen = [ = ](uint64_t idx) { Case c; c.fmt = SET; c.cpu = TOKCPU; for(int l : seq_at(idx, NLs, kv)) c.data += SET_LINES[l]; return c; };
+         vf.push_back(g);
+      }
+      for(size_t si = 0; si < 4; ++si)
+      {
+         Seed sd = seeds[si];
+         size_t len = sd.data.size();
+         Family f;
+         f.N = (len + 1) * 2;
+         f.gen = [ = ](uint64_t idx) { Case c; c.fmt = sd.fmt; c.cpu = TOKCPU; c.mode = idx % 2; idx /= 2; c.data = sd.data; c.trunc = (long)idx; return c; };
+         vf.push_back(f);
+      }
+      static std::vector<std::pair<int, uint64_t>> vlist;
+      vlist.clear();
+      uint64_t skipped = 0;
+      for(size_t fi = 0; fi < vf.size(); ++fi)
+         for(uint64_t idx = 0; idx < vf[fi].N; ++idx)
+         {
+            Case c = vf[fi].gen(idx);
+            std::string d = c.content();
+            if(vg_safe(c, features(c, d))) vlist.push_back({(int)fi, idx});
+            else ++skipped;
+         }
+      if(FILE* pp = popen("python3 /verif/tools/vbuild.py c13 --flavour plain 2>/dev/null", "r"))
+      {
+         char b[1024];
+         while(fgets(b, sizeof b, pp)) { std::string l = b; while(!l.empty() && (l.back() == '\n' || l.back() == ' ')) l.pop_back(); if(!l.empty() && l[0] == '/') g_plain_exe = l; }
+         pclose(pp);
+      }
+      uint64_t nb = std::max<uint64_t>(1, std::min<uint64_t>(96, vlist.size() / 40));
+      if(g_plain_exe.empty() || access(g_plain_exe.c_str(), X_OK) != 0 || system("valgrind --version > /dev/null 2>&1") != 0)
+      {
+         rep.notes.push_back("memcheck pass not executed: plain build or valgrind not available");
+         rep.exhaustive = false;
+      }
+      else
+      {
+         RunOpts ov = o;
+         ov.watchdog_s = 3000;
+         std::string outdir = args.outdir;
+         static std::vector<Family> vfs;
+         vfs = vf;
+         rep.phase("memcheck: tokens k<=" + std::to_string(kv) + " (LP, MPS, BAS), settings fragments k<=" + std::to_string(kv + 1) + ", truncations of the four seed files; " + std::to_string(vlist.size()) + " cases in batches",
+                   nb, [nb, outdir](uint64_t b, int, Ctx & c) -> uint64_t
+         {
+            std::vector<Case> cases;
+            for(size_t i = b; i < vlist.size(); i += nb) cases.push_back(vfs[vlist[i].first].gen(vlist[i].second));
+            return vg_run_batch(cases, b, c, outdir);
+         }, [](uint64_t b, uint64_t) { return "memcheck batch " + std::to_string(b); }, ov);
+         rep.all.counters["memcheck.cases_skipped_input_class_of_an_open_crash_or_hang"] += skipped;
+      }
+   }
+   rep.evaluations = rep.all.counters["reader_runs"] + rep.all.counters["memcheck.cases_executed"];
    rep.rule = "case = (reader, read mode, container plain/gz, name sets passed or not, byte string); every member of the stated token-sequence, truncation and "
               "substitution families is written to a file and read by the real reader through SoPlex::readFile / readBasisFile / loadSettingsFile, "
               "followed by the fixed post-read sequence, at least twice (two different fills of the uninitialised stack). distinct_nontrivial = cases "
@@ -1740,6 +1984,6 @@ int main(int argc, char** argv)
                       "uninitialised heap reads are not observable under the sanitizer allocator (it fills fresh blocks with a constant); uninitialised stack reads are observable only when they change the outcome",
                       "settings files that mention a limit or a real-valued parameter may legitimately change the final solve; then only a sane status is required"
                      };
-   rep.finish(rep.all.counters["cases"]);
+   rep.finish(rep.all.counters["cases"] + rep.all.counters["memcheck.cases_executed"]);
    return 0;
 }
